@@ -175,6 +175,13 @@ Fixpoint g_step (cap : N) (g : grid elt) (o : hop) (after : list elt) {struct o}
   | HIntoVec => ExpGrid true g (Some (e_Nlist (g_cells g)))
   | HIntoIter k => ExpGrid true [] (Some (e_Nlist (firstn k (g_cells g))))
   | HDrop => ExpGrid true [] None
+  (* a panicking Clone / Default: the plain model does not say which cells a partly
+     completed fill has replaced; the shape rules are checked, the cells by C11's oracle *)
+  | HFuse _ _ _ => ExpAny
+  | HCloneFrom c r d =>
+      if zero_rule_ok c r && (c * r =? N.of_nat (length d))%N && fits_nat c && fits_nat r
+      then ExpGrid true (g_of_data (N.to_nat c) (N.to_nat r) d) (Some [1%N])
+      else unchanged
   end.
 
 Fixpoint grid_eqb (a b : grid elt) : bool :=
@@ -230,6 +237,14 @@ Fixpoint introduced (o : hop) (before : list elt) (s : sobs) {struct o} : list e
   | HSetCell _ _ v => [v]
   | HFill v => repeat v (Nat.max 1 (length before))
   | HClone => before
+  | HCloneFrom _ _ d => if s_ok s then d ++ d else d
+  | HFuse _ k o' =>
+      match o' with
+      | HInit _ _ v => if s_ok s then introduced o' before s else repeat v (S k)
+      | HNew _ _ => if s_ok s then s_data s else s_dropped s
+      | HCloneFrom _ _ d => d ++ d      (* the source and the clones made before the panic *)
+      | _ => introduced o' before s
+      end
   | _ => []
   end.
 
@@ -238,6 +253,7 @@ Fixpoint fault_free_op (o : hop) : bool :=
   | HBomb _ o' => fault_free_op o'
   | HInsertRow _ s | HPushRow s | HInsertCol _ s | HPushCol s => honest s
   | HRemoveRow _ _ f | HPopRow _ f | HRemoveCol _ _ f | HPopCol _ f => fin_is_drop f
+  | HFuse _ _ _ => false
   | _ => true
   end.
 
